@@ -286,6 +286,7 @@ class Model:
                     self.pulled_up[m_.qname] = g.qname
         self._properties_to_methods(known, short)
         self._generators_to_lists(known, short)
+        self._expand_new_derived_attributes()
         new_helpers = {q: f for q, f in self.functions.items() if short(q) not in known and not f.name.startswith("__")}
         self.absorbed = {}
         self.inlined_into = {}
@@ -401,6 +402,144 @@ class Model:
         for name, defs in props.items():
             for c, f in defs:
                 f.node.decorator_list = [d for d in f.node.decorator_list if (_dotted(d) or "") != "property"]
+
+    def _expand_new_derived_attributes(self) -> None:
+        """An attribute that the confirmed tree does not have (sa/known_attributes.txt), bound once, at the top level of a constructor, to
+        an expression over constructor parameters that are mirrored verbatim into never-rebound attributes, other constructor-only
+        attributes, constants and pure builtins -- a cached derived value (`self._mask = (1 << width) - 1`) -- is written out where it
+        is read: `x._mask` is `(1 << x.width) - 1`.  No rule knows the new name; every rule knows what it stands for."""
+        path = os.path.join(os.path.dirname(os.path.abspath(__file__)), "known_attributes.txt")
+        try:
+            with open(path, encoding="utf-8") as fh:
+                known_attrs = {l.strip() for l in fh if l.strip() and not l.startswith("#")}
+        except OSError:
+            return
+        sites = self._attr_sites()
+        if sites.get("*"):
+            return
+        import copy as _copy7
+        import builtins as _b
+        defs: dict = {}
+        for c in self.classes.values():
+            init = c.methods.get("__init__")
+            if init is None or not init.params:
+                continue
+            s0 = init.params[0]
+            params = set(init.params[1:])
+            rebound = {n.id for n in ast.walk(init.node) if isinstance(n, ast.Name) and isinstance(n.ctx, ast.Store)}
+            mirrored: dict = {}
+            for st in init.node.body:
+                t = v = None
+                if isinstance(st, ast.Assign) and len(st.targets) == 1:
+                    t, v = st.targets[0], st.value
+                elif isinstance(st, ast.AnnAssign) and st.value is not None:
+                    t, v = st.target, st.value
+                if t is not None and isinstance(t, ast.Attribute) and isinstance(t.value, ast.Name) and t.value.id == s0 and isinstance(v, ast.Name) \
+                        and v.id in params and v.id not in rebound and sites.get(t.attr, {}).get("stores") == 1 and sites[t.attr]["init_only"]:
+                    mirrored.setdefault(v.id, t.attr)
+            for st in init.node.body:
+                t = v = None
+                if isinstance(st, ast.Assign) and len(st.targets) == 1:
+                    t, v = st.targets[0], st.value
+                elif isinstance(st, ast.AnnAssign) and st.value is not None:
+                    t, v = st.target, st.value
+                if t is None or not (isinstance(t, ast.Attribute) and isinstance(t.value, ast.Name) and t.value.id == s0):
+                    continue
+                a = t.attr
+                d = sites.get(a)
+                if a in known_attrs or d is None or d["stores"] != 1 or not d["init_only"] or d["mutated"] or a in defs:
+                    continue
+                if any(a in k.methods or a in k.assigns for k in self.classes.values()):
+                    continue
+                ok = True
+                for n in ast.walk(v):
+                    if isinstance(n, ast.Name):
+                        if n.id == s0:
+                            continue
+                        if n.id in params:
+                            if n.id not in mirrored:
+                                ok = False
+                            continue
+                        if n.id in rebound:
+                            ok = False
+                            continue
+                        r = self.resolve_name(init.module, n.id)
+                        if r is None and not hasattr(_b, n.id):
+                            ok = False
+                    elif isinstance(n, ast.Call):
+                        fn_ = n.func
+                        if not ((isinstance(fn_, ast.Name) and fn_.id in self._PURE_CALLS) or
+                                (isinstance(fn_, ast.Attribute) and isinstance(fn_.value, ast.Name) and fn_.value.id == "math") or
+                                (isinstance(fn_, ast.Attribute) and fn_.attr == "bit_length")):
+                            ok = False
+                    elif isinstance(n, (ast.List, ast.Dict, ast.Set, ast.ListComp, ast.DictComp, ast.SetComp, ast.GeneratorExp, ast.Lambda, ast.NamedExpr,
+                                        ast.Starred, ast.Await, ast.Yield, ast.YieldFrom, ast.JoinedStr)):
+                        ok = False
+                    elif isinstance(n, ast.Attribute) and isinstance(n.value, ast.Name) and n.value.id == s0:
+                        d2 = sites.get(n.attr)
+                        if d2 is None or not d2["init_only"] or d2["mutated"] or d2["stores"] == 0:
+                            ok = False
+                if isinstance(v, (ast.Name, ast.Constant)):
+                    ok = False  # a plain mirror / constant: nothing derived
+                if ok:
+                    defs[a] = (c, s0, mirrored, v, st)
+        if not defs:
+            return
+        self.expanded_attributes = sorted(defs)
+
+        class T(ast.NodeTransformer):
+            def __init__(self, skip) -> None:
+                self.skip = skip
+                self.changed = False
+
+            def visit(self, node):
+                if node is self.skip:
+                    return node
+                return super().visit(node)
+
+            def visit_Attribute(self, n: ast.Attribute):
+                self.generic_visit(n)
+                if isinstance(n.ctx, ast.Load) and n.attr in defs:
+                    recv = n.value
+                    t_ = recv
+                    while isinstance(t_, ast.Attribute):
+                        t_ = t_.value
+                    if not isinstance(t_, ast.Name):
+                        return n
+                    c, s0, mirrored, v, _st = defs[n.attr]
+
+                    class S(ast.NodeTransformer):
+                        def visit_Name(self, x: ast.Name):
+                            if x.id == s0:
+                                return _copy7.deepcopy(recv)
+                            if x.id in mirrored:
+                                return ast.Attribute(value=_copy7.deepcopy(recv), attr=mirrored[x.id], ctx=ast.Load())
+                            return x
+                    self.changed = True
+                    return ast.copy_location(S().visit(_copy7.deepcopy(v)), n)
+                return n
+
+        for f in self.functions.values():
+            if not any(isinstance(n, ast.Attribute) and n.attr in defs for n in ast.walk(f.node)):
+                continue
+            skip = None
+            for a, (c, s0, mirrored, v, st) in defs.items():
+                if f is c.methods.get("__init__"):
+                    skip = st
+            node = _copy7.deepcopy(f.node)
+            # the defining statement is located again in the copy by position
+            skip_copy = None
+            if skip is not None:
+                for n in ast.walk(node):
+                    if type(n) is type(skip) and getattr(n, "lineno", -1) == getattr(skip, "lineno", -2) and getattr(n, "col_offset", -1) == getattr(skip, "col_offset", -2):
+                        skip_copy = n
+                        break
+            t = T(skip_copy)
+            node = t.visit(node)
+            if t.changed:
+                ast.fix_missing_locations(node)
+                f.__dict__.setdefault("raw_node", f.node)
+                f.node = node
 
     def _generators_to_lists(self, known: set, short) -> None:
         """A generator function the confirmed tree does not have, whose body only computes (no attribute / subscript stores, no calls
